@@ -1,4 +1,6 @@
-import H264.C20
+import H264.C20Hdr
+import H264.C20Prof
+import H264.C20Ids
 /-! # C20 — Header-byte and idc enumerations are total and round-trip over their domain
 
 These theorems are about `Generated.*`: function graphs that the harness extracts from the **running code** on every
